@@ -276,6 +276,10 @@ MC_HARNESS(resize_work) {
   Tasks t;
   Gate g;
   g.at = (int)P("gate", 0);
+  // watch=w (directed variant, like gate): B's whole script runs right before A's w-th access to pool.numRings_
+  // inside the submission call - the windows of the ring dispatch that contain no user code (between the task
+  // set's "count <= numRings_" gate and the re-read in scheduleBulkToRings, and between that and the pushes)
+  int watch = (int)P("watch", 0);
   mc::Shared<int> a_done{0};
   int ntasks = path == "pf" ? k + 1 : k;
   auto all_finished = [&] {
@@ -300,6 +304,15 @@ MC_HARNESS(resize_work) {
         return Fn(&t, &g, (int)i);
       };
       g.armed.set(1);
+      if (watch)
+        mc_watch(&pool.numRings_.a_, mc_self_id(), watch,
+                 [](void* p) {
+                   Gate* gg = (Gate*)p;
+                   gg->fired.set(1);
+                   mc::cover("watch_fired");
+                   mc::block_until([gg] { return gg->b_done.get() == 1; });
+                 },
+                 &g);
       if (path == "s") {
         for (int i = 0; i < k; i++) pool.schedule(Fn(&t, &g, i));
         g.armed.set(0), g.submitted.set(1);
@@ -350,7 +363,7 @@ MC_HARNESS(resize_work) {
       a_done.set(1);
     };
     mc::spawn([&] { // ---- thread B
-      if (g.at) mc::block_until([&] { return g.fired.get() == 1 || g.submitted.get() == 1; });
+      if (g.at || watch) mc::block_until([&] { return g.fired.get() == 1 || g.submitted.get() == 1; });
       for (int m : sizes) {
         pool.resize(m);
         MC_CHECK(pool.numThreads() == m, "numThreads() %ld right after resize(%d)", (long)pool.numThreads(), m);
